@@ -30,7 +30,14 @@ func C03(tier string) {
 		chains = chainWorkload(run.SeedV, tier, links, 150, 60, 5)
 	}
 	opts := c03Opts()
-	outs := ProcessBatches(run, "b", toBatches(chains, 45), opts)
+	per := 45
+	if tier == "triage1" {
+		// development aid: every single link alone in its own program (backtrace results depend on what else is in
+		// the program on the pinned tree)
+		chains = chainWorkload(run.SeedV, tier, links, 0, 0, 3)
+		per = 1
+	}
+	outs := ProcessBatches(run, "b", toBatches(chains, per), opts)
 	// trace shape (well-formedness) is asserted on every trace of every batch
 	traces := 0
 	for _, o := range outs {
